@@ -26,7 +26,9 @@
                                writesplinefitstable_mem / splinetable_grideval / ndsparse_destroy = the stated composition
                                of cpp_steps and glue allocation events (compound_spec), outcome in the C convention.
    Everything that composes with C20 is about cfg_fixed; C20_tree_is_fixed (tree_cfg = cfg_fixed) ties it to the tree
-   (the *_tree corollaries are stated with tree_cfg and stop compiling when a fix is missing). *)
+   (the *_tree corollaries are stated with tree_cfg and stop compiling when a fix is missing — except the ninth bit, fx_rmkey:
+   the C interface has no wrapper for remove_key, a C call sequence is the same function of the configuration whatever that
+   bit is, C18_Compose.c_run_rmkey). *)
 From Coq Require Import List Arith Bool String Lia.
 From PS Require Import ObjResource ObjModel CGlue CApiModel Generated_cinter Generated_objfixes C18_Proofs C20_Invariant C18_Compose.
 Import ListNotations.
